@@ -138,7 +138,7 @@ FUNC_LOC = re.compile(r'- Location: (\S+?):\d+(?::\d+)? in function (.*)$')
 def parse_harness_output(path: pathlib.Path):
     """Parse Kani's regular per-harness output (streamed; files can be tens of MB)."""
     res = {'checks': 0, 'failed': [], 'covers': None, 'covers_sat': None, 'status': None,
-           'time_s': None, 'repo_functions': set(), 'unwind_fail': False, 'raw_tail': '', 'ignored_failures': 0}
+           'time_s': None, 'repo_functions': set(), 'unwind_fail': False, 'raw_tail': '', 'ignored_failures': 0, 'cover_checks': [], 'unexpected': []}
     cur = None
     tail = []
     with path.open(errors='replace') as fh:
@@ -165,6 +165,10 @@ def parse_harness_output(path: pathlib.Path):
                         fn = m2.group(2)
                         if not fn.startswith('std::') and not fn.startswith('<std::') and 'verif_' not in fn:
                             res['repo_functions'].add(fn)
+                    if '.cover.' in cur['name']:
+                        res['cover_checks'].append((cur['desc'] or '', cur['status']))
+                        if (cur['desc'] or '').startswith('UNEXPECTED') and cur['status'] == 'SATISFIED':
+                            res['unexpected'].append(f"{cur['desc']} @ {cur['loc']}")
                     if cur['status'] == 'FAILURE' and IGNORED_CLASSES.search(cur['name']):
                         res['ignored_failures'] += 1
                     elif cur['status'] in ('FAILURE', 'UNDETERMINED') and '.cover.' not in cur['name']:
@@ -181,6 +185,10 @@ def parse_harness_output(path: pathlib.Path):
             m = re.match(r'Verification Time: ([\d.]+)s', line)
             if m:
                 res['time_s'] = float(m.group(1))
+    if res['cover_checks']:
+        normal = [c for c in res['cover_checks'] if not c[0].startswith('UNEXPECTED')]
+        res['covers'] = len(normal)
+        res['covers_sat'] = sum(1 for c in normal if c[1] == 'SATISFIED')
     res['raw_tail'] = '\n'.join(tail[-25:])
     res['repo_functions'] = sorted(res['repo_functions'])
     return res
@@ -191,6 +199,10 @@ def classify(res):
     if res is None:
         return 'inconclusive', 'no output produced (timeout / crash before CBMC finished)'
     st = res['status']
+    if res.get('unexpected') and st in ('SUCCESSFUL', 'FAILED') and not [f for f in res['failed'] if f['status'] == 'FAILURE']:
+        # `kani::cover!(.., "UNEXPECTED ...")` witnesses mark shapes the harness cannot judge (e.g. a new
+        # kind of rewrite by the folding pass): neither a pass nor a violation
+        return 'inconclusive', 'shape outside what the harness can judge: ' + '; '.join(res['unexpected'][:3])
     if st == 'SUCCESSFUL':
         if res['covers'] is not None and res['covers_sat'] != res['covers']:
             return 'inconclusive', f"vacuity: only {res['covers_sat']} of {res['covers']} cover! witnesses satisfiable"
